@@ -8,7 +8,7 @@ import z3
 from pyvc.contract import Contract, LoopSpec
 from pyvc.values import SV, SB, Opaque, OptVal, Unsupported, to_z3
 from pyvc import interp as I
-from contracts.integrate import (TS, XS, R, Z, STEP_Y, STEP_E, INTERP, SymSeq, SymList, Stacked)
+from contracts.integrate import (TS, XS, R, Z, STEP_Y, STEP_E, INTERP, ERR, SymSeq, SymList, Stacked)
 from contracts.integrate_loops import TSF
 
 RA = z3.ArraySort(Z, R)
@@ -211,6 +211,11 @@ class AdaptiveInner(LoopSpec):
         cx.oblige(f'{lab}.length>=dt_min-or-clipped', z3.Or(next_t - t_before >= gh.dt_min, next_t == gh.tsN()), 'post')
         cx.oblige(f'{lab}.strictly-advances', next_t > t_before, 'post')
         cx.oblige(f'{lab}.inside', z3.And(next_t <= gh.tsN(), t_before >= gh.ts0()), 'post')
+        # the error estimate compares the full step with the two half steps from the same state, in the solver's own tolerances
+        y_full = STEP_Y(t_before, next_t, body_entry['curr_y'].e, body_entry['curr_extra'].e)
+        y_half, _e_half = two_half(t_before, next_t, body_entry['curr_y'].e, body_entry['curr_extra'].e)
+        cx.oblige(f'{lab}.error-estimate=compute_error(full-step,two-half-steps,self.rtol,self.atol)',
+                  err == ERR(y_full, y_half, gh.rtol, gh.atol), 'post')
         accepted = z3.Or(err <= 1, s_after <= gh.dt_min)
         same_state = z3.And(t_after == t_before, env['curr_y'].e == body_entry['curr_y'].e,
                             env['curr_extra'].e == body_entry['curr_extra'].e)
@@ -254,7 +259,8 @@ class IntegrateAdaptive(Contract):
         E.loops[(self.qualname, 1)] = AdaptiveInner(gh)
         cls = E.module('torchsde._core.base_solver').globals['BaseSDESolver']
         self_ = I.ObjVal(cls, label='solver')
-        self_.fields.update({'dt': SV(gh.dt), 'adaptive': True, 'rtol': cx.real('rtol'), 'atol': cx.real('atol'),
+        gh.rtol, gh.atol = cx.fresh('rtol'), cx.fresh('atol')
+        self_.fields.update({'dt': SV(gh.dt), 'adaptive': True, 'rtol': SV(gh.rtol), 'atol': SV(gh.atol),
                              'dt_min': SV(gh.dt_min), 'options': {}, 'sde': None, 'bm': None})
         self.frozen = dict(self_.fields)
         ts = SymSeq(gh.n, TSF, 0, SV)
